@@ -266,6 +266,12 @@ pub enum SOp {
     PureT { tf: f64, guess: Option<usize> },
     /// pure VLE at p = p_sat(tf*Tc) with an earlier result as guess
     PureP { tf: f64, guess: Option<usize> },
+    /// pure VLE at T with an un-converged two-phase guess built by PhaseEquilibrium::new_npt at
+    /// the requested temperature and a guessed pressure pf * p_sat
+    PureTNpt { tf: f64, pf: f64 },
+    /// pure VLE at p with an un-converged two-phase guess built by new_npt at the requested
+    /// pressure and a guessed temperature T_sat + dt
+    PurePNpt { tf: f64, dt: f64 },
     /// State::new_npt with InitialDensity taken from an earlier result
     Npt { tf: f64, pf: f64, guess: usize, liquid: bool },
     /// State::new_nvu with an initial temperature
@@ -280,6 +286,8 @@ pub enum SOp {
     BdP { bubble: bool, tf: f64, x: f64, dt: f64, comp: u8, guess: usize },
     /// flash inside the envelope, optionally guided by an earlier result
     Flash { tf: f64, z: f64, u: f64, ntot: f64, guess: Option<usize> },
+    /// flash with an un-converged guess built by new_npt at (T, p) from perturbed compositions
+    FlashNpt { tf: f64, z: f64, u: f64, ntot: f64, dy: f64 },
     /// flash at the T, p of an earlier flash result but for another feed on its tie line
     FlashSameTp { from: usize, v: f64, ntot: f64, use_guess: bool },
     /// flash at the pressure of an earlier flash result, at a shifted temperature, guided by it
@@ -535,6 +543,38 @@ fn session_pure_op(ctx: &mut Ctx, sc: &Session, i: usize, op: &SOp, pool_v: &mut
                 }
             }
         }
+        SOp::PureTNpt { tf, pf } => {
+            let t = tf * sys.tc;
+            let Some(r) = ref_pure_t(sc.sys, t) else { return };
+            let m = arr1(&[1.0]) * MOL;
+            let Ok(g) = verif::suspended(|| Vle::new_npt(eos, t * KELVIN, Pressure::from_reduced(r.p * pf), &m, &m)) else { return };
+            if Vle::is_trivial_solution(g.vapor(), g.liquid()) {
+                return;
+            }
+            ctx.out.count("op.pure_t_unconverged_guess", 1);
+            if let Ok(v) = Vle::pure(eos, t * KELVIN, Some(&g), opts) {
+                let n = num(&v);
+                digest_num(&mut ctx.dg, &n);
+                judge(ctx, "pure-mismatch", "pure_t", format!("op {i} pure(T={t}) of {} with an un-converged new_npt guess at {pf} p_sat", sys.name), &n, &r, TOL_PURE, 0.0, "pure_t");
+                pool_v.push((v, false));
+            }
+        }
+        SOp::PurePNpt { tf, dt } => {
+            let Some(rt) = ref_pure_t(sc.sys, tf * sys.tc) else { return };
+            let m = arr1(&[1.0]) * MOL;
+            let Ok(g) = verif::suspended(|| Vle::new_npt(eos, (rt.t + dt) * KELVIN, Pressure::from_reduced(rt.p), &m, &m)) else { return };
+            if Vle::is_trivial_solution(g.vapor(), g.liquid()) {
+                return;
+            }
+            ctx.out.count("op.pure_p_unconverged_guess", 1);
+            if let Ok(v) = Vle::pure(eos, Pressure::from_reduced(rt.p), Some(&g), opts) {
+                let n = num(&v);
+                digest_num(&mut ctx.dg, &n);
+                let r = ref_pure_p(sc.sys, rt.p).unwrap_or(rt.clone());
+                judge(ctx, "pure-mismatch", "pure_p", format!("op {i} pure(p={}) of {} with an un-converged new_npt guess at T_sat + {dt}", rt.p, sys.name), &n, &r, 1e-8, 0.0, "pure_p");
+                pool_v.push((v, false));
+            }
+        }
         SOp::Npt { tf, pf, guess, liquid } => {
             if pool_v.is_empty() {
                 return;
@@ -732,6 +772,25 @@ fn session_binary_op(ctx: &mut Ctx, sc: &Session, i: usize, op: &SOp, pool_v: &m
             let (Some(rb), Some(rd)) = (ref_bubble_t(sc.sys, t, *z), ref_dew_t(sc.sys, t, *z)) else { return };
             let p = rd.p + u * (rb.p - rd.p);
             flash_op(ctx, sc, i, t, p, *z, *ntot, guess.and_then(|g| (!pool_v.is_empty()).then(|| g % pool_v.len())), pool_v, opts);
+        }
+        SOp::FlashNpt { tf, z, u, ntot, dy } => {
+            let t = tf * sys.tc_low;
+            let (Some(rb), Some(rd)) = (ref_bubble_t(sc.sys, t, *z), ref_dew_t(sc.sys, t, *z)) else { return };
+            let p = rd.p + u * (rb.p - rd.p);
+            let Some(r) = ref_flash(sc.sys, t, p, *z, *ntot) else { return };
+            // un-converged guess: phases at (T, p) with perturbed compositions and arbitrary amounts
+            let y0 = (r.y[0] + dy).clamp(0.02, 0.98);
+            let x0 = (r.x[0] - dy).clamp(0.02, 0.98);
+            let vm = arr1(&[y0, 1.0 - y0]) * MOL;
+            let lm = arr1(&[x0, 1.0 - x0]) * MOL;
+            let Ok(g) = verif::suspended(|| Vle::new_npt(eos, t * KELVIN, Pressure::from_reduced(p), &vm, &lm)) else { return };
+            if Vle::is_trivial_solution(g.vapor(), g.liquid()) {
+                return;
+            }
+            ctx.out.count("probe.flash_unconverged_new_npt_guess", 1);
+            pool_v.push((g, false));
+            let k = pool_v.len() - 1;
+            flash_op(ctx, sc, i, t, p, *z, *ntot, Some(k), pool_v, opts);
         }
         SOp::FlashSameP { from, dt, ntot } | SOp::FlashSameT { from, pf: dt, ntot } => {
             let flashes: Vec<usize> = pool_v.iter().enumerate().filter(|(_, e)| e.1).map(|(k, _)| k).collect();
@@ -1198,7 +1257,7 @@ fn gen_session(rng: &mut Rng, tier: Tier, no_faults: bool) -> Session {
         if binary {
             let tf = rng.uniform(0.65, 0.95);
             let x = rng.uniform(0.05, 0.95);
-            let r = rng.below(11);
+            let r = rng.below(12);
             ops.push(match r {
                 0..=3 => SOp::BdT {
                     bubble: rng.chance(0.5),
@@ -1223,6 +1282,7 @@ fn gen_session(rng: &mut Rng, tier: Tier, no_faults: bool) -> Session {
                     ntot: rng.uniform(0.5, 4.0),
                     guess: if rng.chance(0.7) { Some(rng.below(64)) } else { None },
                 },
+                11 => SOp::FlashNpt { tf: rng.uniform(0.65, 0.9), z: rng.uniform(0.15, 0.85), u: rng.uniform(0.15, 0.85), ntot: rng.uniform(0.5, 4.0), dy: rng.uniform(-0.08, 0.08) },
                 8 => SOp::FlashSameTp {
                     from: rng.below(64),
                     v: rng.uniform(0.15, 0.85),
@@ -1238,9 +1298,11 @@ fn gen_session(rng: &mut Rng, tier: Tier, no_faults: bool) -> Session {
                 }
             });
         } else {
-            let r = rng.below(12);
+            let r = rng.below(14);
             let guess = if rng.chance(0.8) { Some(rng.below(64)) } else { None };
             ops.push(match r {
+                12 => SOp::PureTNpt { tf: rng.uniform(0.5, 0.95), pf: q9((rng.uniform(-1.0, 1.0) * 1.05f64).exp()) },
+                13 => SOp::PurePNpt { tf: rng.uniform(0.5, 0.95), dt: rng.uniform(-12.0, 12.0) },
                 0..=4 => SOp::PureT { tf: rng.uniform(0.45, 0.98), guess },
                 5..=6 => SOp::PureP { tf: rng.uniform(0.5, 0.97), guess },
                 7 => SOp::Npt {
